@@ -27,12 +27,6 @@ VARIABLES l,        \* next line of Rec
 vars == <<l, scn, tx, rx, bad, nbad, hits, classes, crcCache, crcTab>>
 
 \* ------------------------------------------------------------- utilities
-SizeClass(n) ==
-  CASE n = 0 -> 0 [] n < 16 -> 1 [] n < 4000 -> 2 [] n <= 4095 -> 3 [] n <= 4097 -> 4
-    [] n <= 65535 -> 5 [] OTHER -> 6
-
-PtClass(t) == CASE t < 256 -> 0 [] t < 1536 -> 1 [] OTHER -> 2
-
 IsOkRes(r) == r.t \in {"completed", "fragmented"}
 ResTag(r)  == IF r.t = "err" THEN r.e ELSE r.t
 
@@ -257,9 +251,9 @@ Step(e, crc) ==
   CASE e.ev = "begin" ->
          [Empty EXCEPT !.cls = <<"begin", e.drv>>] @@ [tx |-> TxInit, rx |-> RxBegin(e)]
     [] e.ev = "encap" ->
-         JudgeEncap(e, tx, crc) @@ [rx |-> RxAfterTx(rx, e)]
+         JudgeEncap(e, tx, crc) @@ [rx |-> RxAfterEncap(rx, e, tx)]
     [] e.ev = "encap_frag" ->
-         JudgeFrag(e) @@ [tx |-> tx, rx |-> rx]
+         JudgeFrag(e) @@ [tx |-> tx, rx |-> RxAfterFrag(rx, e)]
     [] e.ev = "preview" ->
          JudgePreview(e, FALSE) @@ [tx |-> tx, rx |-> rx]
     [] e.ev = "frag_preview" ->
